@@ -8,8 +8,11 @@ for d in sorted(glob.glob('/verif/seeded/*/meta.json')):
     if len(summ) > 170:
         summ = summ[:167] + '...'
     note = (m.get('note') or '')
-    first = 'missed at first' if 'issed at first' in note else 'caught as submitted'
-    rows.append(f"| {m.get('seed_id')} | {summ} | {', '.join(m.get('caught_by', [])) or 'NOT CAUGHT'} | {first} |")
+    first = 'missed at first' if 'issed at first' in note or 'MISSED at first' in note else 'caught as submitted'
+    caught = ', '.join(m.get('caught_by', [])) or 'NOT CAUGHT'
+    if m.get('obsolete'):
+        caught = 'obsolete (neutralised by a later repair, see note in meta.json)'
+    rows.append(f"| {m.get('seed_id')} | {summ} | {caught} | {first} |")
 tab = '| seed | change | caught by (quick) | first version of the check |\n|---|---|---|---|\n' + '\n'.join(rows)
 p = '/verif/DESIGN.md'
 s = open(p).read()
